@@ -121,16 +121,16 @@ def walkdir_stubs(on_next=None):
         b = strip(a[0])
         if isinstance(b, Adt) and b.path == WD:
             return Adt(WD, "IntoIter", dict(b.fields))
-        return I.top("into_iter of %r" % (b,))
+        return NotImplemented           # some other collection: resolved as usual
 
     def nxt(I, a, fn, e):
         b = strip(a[0])
         if isinstance(b, Adt) and b.path == WD and b.variant == "IntoIter":
             I.emit("walkdir.next", b.fields["min"], b.fields["max"], b.fields["follow"])
             return on_next(I, b.fields) if on_next else none()
-        return I.top("next of %r" % (b,))
+        return NotImplemented           # some other iterator: resolved as usual
     return {
-        "walkdir::WalkDir::new": lambda I, a, fn, e: Adt(WD, "WalkDir", {"min": 0, "max": INF, "follow": False}),
+        "walkdir::WalkDir::new": lambda I, a, fn, e: (I.emit("walkdir.new", repr(strip(a[0]))), Adt(WD, "WalkDir", {"min": 0, "max": INF, "follow": False}))[1],
         "walkdir::WalkDir::follow_links": setter("follow"),
         "walkdir::WalkDir::min_depth": setter("min"),
         "walkdir::WalkDir::max_depth": setter("max"),
